@@ -371,6 +371,15 @@ def build_recipes():
                                                                              dict(channel='FL1-H', xscale=sc, bins=16, xlim=_own(c, [1.0, 900.0]))))[1])
             add('plot.hist1d', lambda c, sc=scale, k=kind: (lz(c, sc, k), (fplot.hist1d, [c.sample(k)],
                                                                              dict(channel='FSC-H', xscale=sc, bins=None, facecolor=_own(c, ['r']))))[1])
+            def rec_hw(c, sc=scale, k=kind, normed=False):
+                # extra keyword arguments travel on to matplotlib: a caller-owned weights array among them (with
+                # normed_height the combination may be refused -- either way the array stays what it was)
+                lz(c, sc, k)
+                d_ = c.sample(k)
+                return (fplot.hist1d, [d_], dict(channel='FL1-H', xscale=sc, bins=16, normed_height=normed,
+                                                 weights=_own(c, np.full(d_.shape[0], 2.0))))
+            add('plot.hist1d', rec_hw)
+            add('plot.hist1d', lambda c, sc=scale, k=kind: rec_hw(c, sc, k, True))
             add('plot.density2d', lambda c, sc=scale, k=kind: (lz(c, sc, k), (fplot.density2d, [c.sample(k)],
                                                                                 dict(channels=_own(c, ['FSC-H', 'SSC-H']), bins=_own(c, [8, None]),
                                                                                      xscale=sc, yscale='logicle', mode='scatter', sigma=1.0)))[1])
@@ -565,6 +574,14 @@ def check(case, obs):
                     obs.claim('no_share', not name.startswith(('gate.', 'transform.')),
                               lambda: '%s: the result is the input object itself' % name)
                     continue
+                # a change made to the input before anything was read from the result must not show in the result
+                if hasattr(src, 'text') and hasattr(rr, 'text'):
+                    src.text['VERIF_EARLY'] = 'x'
+                    src.analysis['VERIF_EARLY'] = 'x'
+                    leaked = 'VERIF_EARLY' in rr.text or 'VERIF_EARLY' in rr.analysis
+                    del src.text['VERIF_EARLY']
+                    del src.analysis['VERIF_EARLY']
+                    obs.claim('no_share', not leaked, lambda: "%s: a keyword added to the input after the call shows in the result" % name)
                 obs.claim('no_share', not np.shares_memory(rr, src) or rr.size == 0,
                           lambda: '%s: result shares event memory with its input' % name)
                 _independent(obs, name, src, rr)
